@@ -298,6 +298,24 @@ def check_plain(rep, algopy, rng, tier):
             ('fft', lambda: afft.fft(v), lambda: numpy.fft.fft(v)), ('ifft', lambda: afft.ifft(v + 1j), lambda: numpy.fft.ifft(v + 1j)),
             ('symvec', lambda: algopy.symvec(S), lambda: numpy.array([0.5 * (S[r, c] + S[c, r]) for r in range(3) for c in range(r, 3)])),
         ]
+        # optional arguments passed BY KEYWORD (and results written to out=), on arrays, lists and scalars
+        def with_out(f, x):
+            buf = numpy.full(numpy.shape(x), -7.0); r = f(x, out=buf)
+            return (r is buf, buf.copy())
+        calls += [
+            ('triu(k=)', lambda: algopy.triu(A, k=1), lambda: numpy.triu(A, k=1)), ('tril(k=)', lambda: algopy.tril(A, k=-1), lambda: numpy.tril(A, k=-1)),
+            ('triu(list, k=)', lambda: algopy.triu(A.tolist(), k=1), lambda: numpy.triu(A.tolist(), k=1)),
+            ('diag(v, k=)', lambda: algopy.diag(v, k=1), lambda: numpy.diag(v, k=1)), ('diag(A, k=)', lambda: algopy.diag(A, k=-1), lambda: numpy.diag(A, k=-1)),
+            ('trace(offset=)', lambda: algopy.trace(A, offset=1), lambda: numpy.trace(A, offset=1)),
+            ('tile(reps=)', lambda: algopy.tile(v, reps=2), lambda: numpy.tile(v, reps=2)), ('tile(A, reps=)', lambda: algopy.tile(A, reps=(2, 1)), lambda: numpy.tile(A, reps=(2, 1))),
+            ('sum(axis=)', lambda: algopy.sum(A, axis=0), lambda: numpy.sum(A, axis=0)),
+            ('exp(out=)', lambda: with_out(algopy.exp, v), lambda: with_out(numpy.exp, v)),
+            ('absolute(out=)', lambda: with_out(algopy.absolute, u), lambda: with_out(numpy.absolute, u)),
+            ('sign(out=)', lambda: with_out(algopy.sign, u), lambda: with_out(numpy.sign, u)),
+            ('exp(dtype=)', lambda: algopy.exp(v, dtype=numpy.float32), lambda: numpy.exp(v, dtype=numpy.float32)),
+            ('maximum(out=)', lambda: (lambda b: (algopy.maximum(v, w, out=b), b.copy())[1])(numpy.zeros(3)), lambda: (lambda b: (numpy.maximum(v, w, out=b), b.copy())[1])(numpy.zeros(3))),
+            ('reshape(order=)', lambda: algopy.reshape(A, (9,), order='F'), lambda: numpy.reshape(A, (9,), order='F')),
+        ]
         for name, fa, fn in calls:
             rep.count('plain:function', name)
             rep.case(('plain', name, v.tobytes().hex(), A.tobytes().hex()), True, sample=dict(check='plain', function=name))
@@ -321,7 +339,7 @@ def main(tier, seed):
     rep = Report(PID, tier, seed)
     rep.rule = ('(a) every registered operation x random inputs: result.data[0,p] against the NumPy/SciPy call on x.data[0,p], every direction; '
                 '(b) shape/ndim/size/len for 7 coefficient shapes; (c) < <= > >= == against UTPM / scalar / ndarray with equal, smaller, larger and '
-                'mixed zeroth coefficients; (d) ~90 algopy-level functions called with plain arrays/scalars against NumPy/SciPy bit-wise; '
+                'mixed zeroth coefficients; (d) ~110 algopy-level calls with plain arrays/lists/scalars, optional arguments by keyword and out= included, against NumPy/SciPy bit-wise; '
                 'non-trivial = several directions or coefficients resp. every comparison/plain case; distinct by full case content')
     rep.assumptions = ['NumPy/SciPy are the oracle for the base operations: this half of the property is an enumeration, not a theorem',
                        'comparisons are not modelled in Coq (no order structure in the field-generic model)']
